@@ -525,6 +525,110 @@ fn lowrank_default_cutoff(d: usize, c: f64, compressed: bool, p: &mut Partial) {
     p.class(format!("lowrank-default-cutoff:{}", if compressed { "compressed" } else { "stretched" }));
 }
 
+/// Windows of an update HISTORY on one matrix (default eigenvalue cut-off). `Stretched(c, sign)`:
+/// covariance I + c vv^T with v = (1, sign, 1, sign, ..) - keeps one eigenvalue; `Axis(k)`:
+/// covariance diag(s^2) - keeps none. Both are represented exactly by the estimator.
+#[derive(Clone, Copy, Debug)]
+enum Win {
+    Stretched(f64, f64),
+    Axis(usize),
+}
+
+fn window_of(d: usize, w: Win) -> (Vec<f64>, Dense, Dense) {
+    let mu: Vec<f64> = (0..d).map(|i| 0.3 * i as f64 - 0.5).collect();
+    match w {
+        Win::Stretched(c, sign) => {
+            let v: Vec<f64> = (0..d).map(|i| if i % 2 == 0 { 1.0 } else { sign }).collect();
+            let wgt = c / (1.0 + c * d as f64);
+            let cov = Dense { d, a: (0..d * d).map(|k| (if k / d == k % d { 1.0 } else { 0.0 }) + c * v[k / d] * v[k % d]).collect() };
+            let prec = Dense { d, a: (0..d * d).map(|k| (if k / d == k % d { 1.0 } else { 0.0 }) - wgt * v[k / d] * v[k % d]).collect() };
+            (mu, cov, prec)
+        }
+        Win::Axis(kind) => {
+            let sc: Vec<f64> = (0..d).map(|i| match kind { 0 => 1.0, 1 => 0.3 + 0.6 * i as f64, _ => 10f64.powf(i as f64 - 2.0) }).collect();
+            (mu, Dense::diag(&sc.iter().map(|s| s * s).collect::<Vec<_>>()), Dense::diag(&sc.iter().map(|s| 1.0 / (s * s)).collect::<Vec<_>>()))
+        }
+    }
+}
+
+/// every update leaves a transformation that whitens the Gaussian of the window it was computed
+/// from, whatever the matrix held before (rank going up, down to zero, and changing direction)
+fn lowrank_history(d: usize, seq: &[Win], p: &mut Partial) {
+    let key = format!("lowrank-history/d{d}/{seq:?}");
+    let replay = json!({"d": d, "windows": format!("{seq:?}")});
+    let settings = LowRankSettings::default();
+    let mut math = CpuMath::new(Dens::new(Target::std_normal(d)));
+    let mut mm = LowRankMassMatrix::new(&mut math, settings);
+    let pos0 = col(&vec![0.1; d]);
+    let grad0 = col(&(0..d).map(|i| -0.5 - 0.1 * i as f64).collect::<Vec<_>>());
+    mm.update_from_grad(&mut math, &pos0, &grad0, 1.0, (1e-20, 1e20));
+    let mut h = TransformedHamiltonian::new(&mut math, mm, KineticEnergyKind::Euclidean);
+    p.evaluations += 1;
+    let mut ranks = vec![];
+    for (wi, w) in seq.iter().enumerate() {
+        let (mu, cov, prec) = window_of(d, *w);
+        let n = 2 * d + 3;
+        let pts: Vec<Vec<f64>> = (0..n)
+            .map(|m| {
+                let t: Vec<f64> = (0..d).map(|i| ((m as f64 + 1.0) * (0.71 + 0.23 * i as f64)).sin() * 1.4 + 0.07 * (m as f64 - 3.0)).collect();
+                let z = cov.mul_vec(&t);
+                (0..d).map(|i| mu[i] + z[i]).collect()
+            })
+            .collect();
+        // a fresh estimator per window = a switch that discarded the previous window
+        let mut strat = <LowRankMassMatrixStrategy as MassMatrixAdaptStrategy<M>>::new(&mut math, settings, 0, 0);
+        for x in &pts {
+            let diff: Vec<f64> = (0..d).map(|i| x[i] - mu[i]).collect();
+            let g: Vec<f64> = prec.mul_vec(&diff).iter().map(|v| -v).collect();
+            let c = nv::draw_grad_collector(&mut math, x, &g, true);
+            <LowRankMassMatrixStrategy as MassMatrixAdaptStrategy<M>>::update_estimators(&mut strat, &mut math, &c);
+        }
+        let changed = std::panic::catch_unwind(std::panic::AssertUnwindSafe(|| {
+            <LowRankMassMatrixStrategy as MassMatrixAdaptStrategy<M>>::adapt(&strat, &mut math, h.transformation_mut())
+        }));
+        match changed {
+            Ok(true) => {}
+            Ok(false) => {
+                p.violation(format!("C08/low-rank-adaptation-did-not-update/{key}"), format!("window {wi}"), replay);
+                return;
+            }
+            Err(_) => {
+                p.violation(format!("C08/estimator-panicked/{key}"), format!("window {wi}"), replay);
+                return;
+            }
+        }
+        let target = Target::DenseNormal { mu: mu.clone(), prec: prec.a.clone() };
+        let mut worst: f64 = 0.0;
+        for probe in 0..3 {
+            let x: Vec<f64> = (0..d).map(|i| mu[i] + ((probe as f64 + 1.3) * (i as f64 + 0.9)).cos()).collect();
+            let mut g = vec![0.0; d];
+            target.logp(&x, &mut g);
+            let mut yv = math.new_array();
+            let mut gyv = math.new_array();
+            use nuts_rs::verif::Transformation;
+            if h.transformation_mut().inv_transform_normalize(&mut math, &col(&x), &col(&g), &mut yv, &mut gyv).is_err() {
+                continue;
+            }
+            let y = math.box_array(&yv);
+            let gy = math.box_array(&gyv);
+            let scale = y.iter().fold(1e-3f64, |m, v| m.max(v.abs()));
+            for i in 0..d {
+                worst = worst.max((y[i] + gy[i]).abs() / scale);
+            }
+        }
+        if !(worst < 2e-3) {
+            p.violation(
+                format!("C08/low-rank-adaptation-does-not-whiten-gaussian/{key}"),
+                format!("after window {wi} ({w:?}): max |y + grad_y| / |y| = {worst:e} on probe points"),
+                replay,
+            );
+            return;
+        }
+        ranks.push(matches!(w, Win::Stretched(..)) as u8);
+    }
+    p.class(format!("lowrank-history:{ranks:?}"));
+}
+
 fn lowrank_degeneracy(p: &mut Partial, tier: Tier) {
     let alpha: Vec<f64> = tier.pick(vec![0.0, 1.0, -1.0, 1e300, f64::NAN, f64::INFINITY], ALPHA.to_vec());
     let n = alpha.len();
@@ -624,6 +728,7 @@ pub fn run(tier: Tier, _replay: Option<String>) -> i32 {
         LowRankExact(usize, usize, f64),
         LowRankSmallWindow(usize, usize, usize, f64),
         LowRankDefaultCutoff(usize, f64, bool),
+        LowRankHistory(usize, Vec<Win>),
         LowRankWindows,
         Closed(Preset, usize),
         /// low-rank preset with its DEFAULT eigenvalue cut-off on a correlated Gaussian
@@ -635,6 +740,22 @@ pub fn run(tier: Tier, _replay: Option<String>) -> i32 {
     for d in [5usize, 10] {
         for c in [2.0, 9.0, 40.0] {
             jobs.push(Job::LowRankDefaultCutoff(d, c, false));
+        }
+    }
+    // update histories on one matrix: every word of length 2 (3) over five windows
+    {
+        let wins = [Win::Stretched(9.0, 1.0), Win::Stretched(40.0, -1.0), Win::Axis(0), Win::Axis(1), Win::Axis(2)];
+        for d in [5usize, 10] {
+            for a in wins {
+                for b in wins {
+                    jobs.push(Job::LowRankHistory(d, vec![a, b]));
+                    if tier == Tier::Thorough || d == 5 {
+                        for c in wins {
+                            jobs.push(Job::LowRankHistory(d, vec![a, b, c]));
+                        }
+                    }
+                }
+            }
         }
     }
     for d in tier.pick(vec![6usize, 8, 12], vec![6usize, 8, 12, 20, 50]) {
@@ -688,6 +809,7 @@ pub fn run(tier: Tier, _replay: Option<String>) -> i32 {
             Job::LowRankExact(d, k, c) => lowrank_exactness(*d, *k, *c, &mut p),
             Job::LowRankSmallWindow(d, n, k, c) => lowrank_small_window(*d, *n, *k, *c, &mut p),
             Job::LowRankDefaultCutoff(d, c, comp) => lowrank_default_cutoff(*d, *c, *comp, &mut p),
+            Job::LowRankHistory(d, seq) => lowrank_history(*d, seq, &mut p),
             Job::LowRankWindows => lowrank_degeneracy(&mut p, tier),
             Job::ClosedCorr(which, _) => {
                 // strongly correlated pairs of either sign, one stretched / one compressed direction
@@ -710,7 +832,7 @@ pub fn run(tier: Tier, _replay: Option<String>) -> i32 {
         p.transitions = p.evaluations;
         p.validated = p.evaluations;
         if p.samples.is_empty() {
-            p.sample(json!({"job": match j { Job::DiagExact(d, c) => format!("diag exactness d={d} cond={c:e}"), Job::DiagExactScaled(d, b) => format!("diag exactness d={d} base scale {b:e}"), Job::DiagWindows(g) => format!("diag windows grad_based={g}"), Job::DiagInit => "gradient initialiser".into(), Job::LowRankExact(d, k, c) => format!("low-rank exactness d={d} rank={k} cond={c:e}"), Job::LowRankSmallWindow(d, n, k, c) => format!("low-rank small window d={d} n={n} rank={k} cond={c:e}"), Job::LowRankDefaultCutoff(d, c, comp) => format!("low-rank default cut-off d={d} c={c} compressed={comp}"), Job::LowRankWindows => "low-rank windows".into(), Job::Closed(pr, d) => format!("closed loop {pr:?} d={d}"), Job::ClosedCorr(w, _) => format!("closed loop low-rank correlated target {w}") }}));
+            p.sample(json!({"job": match j { Job::DiagExact(d, c) => format!("diag exactness d={d} cond={c:e}"), Job::DiagExactScaled(d, b) => format!("diag exactness d={d} base scale {b:e}"), Job::DiagWindows(g) => format!("diag windows grad_based={g}"), Job::DiagInit => "gradient initialiser".into(), Job::LowRankExact(d, k, c) => format!("low-rank exactness d={d} rank={k} cond={c:e}"), Job::LowRankSmallWindow(d, n, k, c) => format!("low-rank small window d={d} n={n} rank={k} cond={c:e}"), Job::LowRankDefaultCutoff(d, c, comp) => format!("low-rank default cut-off d={d} c={c} compressed={comp}"), Job::LowRankHistory(d, seq) => format!("low-rank update history d={d} {seq:?}"), Job::LowRankWindows => "low-rank windows".into(), Job::Closed(pr, d) => format!("closed loop {pr:?} d={d}"), Job::ClosedCorr(w, _) => format!("closed loop low-rank correlated target {w}") }}));
         }
         report.merge(p);
     });
